@@ -21,7 +21,7 @@ ASSUMPTIONS = ["TrafficLight.shape is not in the statement's list and is not com
                "tolerance 1e-9*(1+|coordinates|+|t|) for points, 1e-9 for angles (modulo 2pi, result inside [-2pi, 2pi])"]
 
 PI = math.pi
-ANGLES_F = [0.0, 1e-9, -1e-9, 1e-6, -1e-6, 1e-3, -1e-3, 0.01, -0.01, 0.049, -0.049, 0.05, -0.05, 0.051, -0.051, 0.1, -0.1, 0.5, -0.5, 1.0, -1.0,
+ANGLES_F = [0.0, 1e-9, -1e-9, 8e-9, -8e-9, 3e-8, -3e-8, 1e-6, -1e-6, 1e-3, -1e-3, 0.01, -0.01, 0.049, -0.049, 0.05, -0.05, 0.051, -0.051, 0.1, -0.1, 0.5, -0.5, 1.0, -1.0,
             2.5, -2.5, 4.0, -4.0, 6.0, -6.0, PI / 2, -PI / 2, PI, -PI, 3 * PI / 2, -3 * PI / 2, 2 * PI, -2 * PI]
 # both sides of every distinguished angle: the floats next to each quarter turn (towards 0) and 1e-10 short of it -- a shortcut that recognises
 # "a quarter turn" by closeness must still rotate by the angle it was given
